@@ -84,6 +84,21 @@ def _erase(x):
     return x
 
 
+def _erase_fields(x, in_field=True):
+    """like _erase, but only for pointers in FIELD position of a struct: as elements of a repeated field the package
+    keeps non-nil pointers to empty messages (each element is written with its own tag and zero length)"""
+    if isinstance(x, list):
+        if x[:1] == ["s"]:
+            x = ["s"] + [_erase_fields(i, True) for i in x[1:]]
+        elif x[:1] == ["p"]:
+            x = ["p"] + [_erase_fields(i, in_field) for i in x[1:]]
+        else:
+            x = x[:1] + [_erase_fields(i, False) for i in x[1:]]
+        if in_field and len(x) == 2 and x[0] == "p" and (_empty_enc(x) or x[1] == "nil"):
+            return "nil"
+    return x
+
+
 @matcher("proto.ptr-to-empty-message")
 def _ptr_empty(e, c):
     """p.rt: the only difference is that non-nil pointers to messages whose encoding is empty (struct{}, or a struct whose
@@ -91,15 +106,17 @@ def _ptr_empty(e, c):
     if c.fn != "p.rt" or c.impl == c.oracle or c.impl.startswith("err") or c.impl == "PANIC":
         return False
     try:
-        return _show(_erase(_parse(c.oracle))) == _show(_parse(c.impl)) and "(p " in c.oracle
+        o, i = _parse(c.oracle), _show(_parse(c.impl))
+        return (_show(_erase(o)) == i or _show(_erase_fields(o)) == i) and "(p " in c.oracle
     except Exception:
         return False
 
 
+@matcher("spec.known-deviation")
 @matcher("thrift.known-deviation")
 def _thrift_dev(e, c):
     """t.enc / t.msg: the bytes differ from the specification only by recorded deviations, and the one named by the entry is among them."""
-    if c.fn not in ("t.enc", "t.enc.x", "t.msg", "p.customwire") or not c.oracle.startswith("spec="):
+    if c.fn not in ("t.enc", "t.enc.x", "t.msg", "p.customwire", "p.bigfield") or not c.oracle.startswith("spec="):
         return False
     m = re.search(r"known-deviations=([a-z0-9,]*)", c.oracle)
     return bool(m) and e.get("deviation") in m.group(1).split(",")
